@@ -367,8 +367,13 @@ def run(repo: Repo, rep: Report, tier: str) -> None:
             oks = dotted(a.value.func) == "negotiate_unrestricted" and dotted(b.value.func) == "negotiate_as_acceptor" and [norm(x) for x in a.value.args] == [norm(x) for x in b.value.args] == ["assoc_rq.presentation_context_definition_list", "self.acceptor.supported_contexts", "rq_roles"] and norm(a.targets[0]) == norm(b.targets[0]) == "(result, ac_roles)"
     rep.check(oks, "mode-select", "acse.ACSE._negotiate_as_acceptor", sel[0] if sel else "mode selection", "both modes must negotiate the proposed list against the supported contexts with the proposed roles", mod=acse, node=(sel[0] if sel else na))
     src = [norm(s) for s in walk_no_nested(na) if isinstance(s, ast.stmt)]
-    oka = "self.assoc._accepted_cx = {cast(int, cx.context_id): cx for cx in result if cx.result == 0}" in src and "self.assoc._rejected_cx = [cx for cx in result if cx.result != 0]" in src
-    rep.check(oka, "mode-select", "acse.ACSE._negotiate_as_acceptor", "accepted = result 0, rejected = the rest", "every result must land in exactly one of the accepted / rejected collections", mod=acse, node=na)
+    from ..nego_eval import eval_context_partition
+    from ..minipy import Unsupported as _Unsup
+    try:
+        probs, n_sites = eval_context_partition(repo, na)
+        rep.check(n_sites >= 1 and not probs, "mode-select", "acse.ACSE._negotiate_as_acceptor", probs[0][0] if probs else "accepted = result 0, rejected = the rest", f"every result must land in exactly one of the accepted / rejected collections, the accepted one exactly for result 0 (evaluated for the result codes 0..4, 5, 255 and None){': ' + probs[0][1] if probs else ''}", mod=acse, node=probs[0][0] if probs else na)
+    except _Unsup as exc:
+        rep.defer(f"acse.ACSE._negotiate_as_acceptor: the accepted / rejected partition could not be evaluated ({exc})")
     rq = [s for s in walk_no_nested(na) if isinstance(s, ast.Assign) and norm(s.targets[0]) == "rq_roles"]
     rep.check(len(rq) == 1 and norm(rq[0].value) == "{uid: (item.scu_role, item.scp_role) for uid, item in self.requestor.role_selection.items()}", "mode-select", "acse.ACSE._negotiate_as_acceptor", rq[0] if rq else "rq_roles", "proposed roles must be passed as (scu_role, scp_role) per SOP class", mod=acse, node=na)
     check_config_copy(repo, rep)
